@@ -83,6 +83,13 @@ PrismSolve(n) ==
     /\ UNCHANGED cfg /\ steps' = steps + 1
     /\ last' = [act |-> "PrismSolve", n |-> n, raises |-> "", result |-> <<"Snap", prisms[n].snap>>]
 
+\* the user goes on with a deep copy of the System (copy.deepcopy; pickling is not supported by the potentials): a copy IS the
+\* same configuration, every later statement holds for it unchanged
+CopySystem ==
+    /\ steps < MaxSteps
+    /\ UNCHANGED <<cfg, prisms>> /\ steps' = steps + 1
+    /\ last' = [act |-> "CopySystem", raises |-> ""]
+
 \* the oldest PRISM object is dropped by the user (bounds the model)
 Drop ==
     /\ steps < MaxSteps /\ Len(prisms) = MaxPrisms
@@ -92,6 +99,7 @@ Drop ==
 Next == \/ \E i \in Editable : \E v \in Versions(i) : Edit(i, v)
         \/ \E s \in BOOLEAN : Create(s)
         \/ \E n \in 1 .. MaxPrisms : PrismSolve(n)
+        \/ CopySystem
         \/ Drop
 
 \* ---------------------------------------------------------------- the property
